@@ -494,6 +494,34 @@ func (f *Frame) run(entryGuard Term, st *State, args []Value) ([]Value, *State, 
 		}
 		r := e.defineBool(f.name(fmt.Sprintf("r%d", bi)), or(conds...))
 		f.reach[bi] = r
+		// loop latch duplication: a side-effect-free block that only jumps back to a loop header is encoded once
+		// per predecessor (no merge), so that the invariant-preserved obligations see unmerged values
+		if f.isPureLatch(b) && len(preds) >= 2 && f.loops[bi] == nil {
+			for k, p := range preds {
+				if p == nil {
+					continue
+				}
+				f.guard = conds[k]
+				f.st = sts[k].clone()
+				for _, in := range b.Instrs {
+					if phi, ok := in.(*ssa.Phi); ok {
+						for ei, bp := range b.Preds {
+							if bp == p {
+								f.vals[phi] = f.val(phi.Edges[ei])
+								break
+							}
+						}
+						continue
+					}
+					if f.instr(in) {
+						break
+					}
+				}
+			}
+			f.out[bi] = sts[0]
+			f.outG[bi] = r
+			continue
+		}
 		f.guard = r
 		f.st = e.mergeStates(f.name(fmt.Sprintf("b%d", bi)), conds, sts)
 		li := f.loops[bi]
@@ -559,6 +587,42 @@ func (f *Frame) run(entryGuard Term, st *State, args []Value) ([]Value, *State, 
 		results[i] = f.mergeVals(f.name(fmt.Sprintf("res%d", i)), conds, vs, fn.Signature.Results().At(i).Type())
 	}
 	return results, final, rg
+}
+
+// isPureLatch: block consisting of phis and pure arithmetic, ending in a jump along a back edge.
+func (f *Frame) isPureLatch(b *ssa.BasicBlock) bool {
+	if len(b.Succs) != 1 || !f.back[[2]int{b.Index, b.Succs[0].Index}] {
+		return false
+	}
+	for _, in := range b.Instrs {
+		switch x := in.(type) {
+		case *ssa.Phi, *ssa.DebugRef, *ssa.Jump, *ssa.Convert, *ssa.ChangeType:
+		case *ssa.BinOp:
+			if x.Op == token.QUO || x.Op == token.REM {
+				return false
+			}
+		default:
+			return false
+		}
+	}
+	// values defined here must not be used outside the block (other than by the header's phis)
+	for _, in := range b.Instrs {
+		v, ok := in.(ssa.Value)
+		if !ok {
+			continue
+		}
+		if refs := v.Referrers(); refs != nil {
+			for _, r := range *refs {
+				if r.Block() != b {
+					if _, isPhi := r.(*ssa.Phi); isPhi && r.Block() == b.Succs[0] {
+						continue
+					}
+					return false
+				}
+			}
+		}
+	}
+	return true
 }
 
 func (e *Enc) defineBool(name string, t Term) Term {
@@ -1190,7 +1254,7 @@ func (f *Frame) makeSlice(x *ssa.MakeSlice) Term {
 	f.topFrame().allocSites = append(f.topFrame().allocSites, allocSite{instr: x, size: cp, guard: f.guard, inl: f})
 	reg := e.alloc(f.st, f.name(x.Name()+"_reg"))
 	hn, hs := e.elemHeapName(e.sortOf(el))
-	zeroArr := Term{S: fmt.Sprintf("((as const %s) %s)", arraySort(SBV64, e.sortOf(el)), e.zero(el).S), Sort: arraySort(SBV64, e.sortOf(el))}
+	zeroArr := e.constArray(arraySort(SBV64, e.sortOf(el)), e.zero(el))
 	e.setHeap(f.st, hn, store(e.heap(f.st, hn, hs), reg, zeroArr))
 	return e.define(f.name(x.Name()), mkSlice(reg, i64(0), ln, cp))
 }
